@@ -213,6 +213,12 @@ class Container(dict):
         compiled_pattern = re.compile(pattern)
         return self.__class__._search(self, compiled_pattern, True)
 
+    def __reduce__(self, /):
+        """
+        Used by pickle. Entries are passed explicitly, because the default would call self.items(), which an entry named "items" shadows. The instance is recreated through the constructor, which restores attribute access.
+        """
+        return (self.__class__, (), None, None, iter(dict.items(self)))
+
     def __getstate__(self, /):
         """
         Used by pickle to serialize an instance to a dict.
@@ -223,6 +229,7 @@ class Container(dict):
         """
         Used by pickle to de-serialize from a dict.
         """
+        self.__dict__ = self
         self.__class__.clear(self)
         self.__class__.update(self, state)
 
